@@ -197,6 +197,13 @@ Definition exec (fk_on : bool) (c : catalog) (st : stmt) : result catalog engine
       else Ok (mkCat (cat_tables c ++ [table_of_create name cols pks fks checks]) (cat_indexes c))
   | SDropTable name =>
       if has_ctable name c then
+        (* foreign_keys=ON: the implicit DELETE compiles the ON DELETE CASCADE action of every referencing table as a DELETE on
+           that table, which needs all of ITS parent tables to exist ("no such table: main.x") *)
+        if (fk_on && existsb (fun ch => (negb (ieq (ct_name ch) name)
+                                         && existsb (fun f => (ieq (sf_table f) name
+                                                               && match sf_on_delete f with Some Cascade => true | _ => false end)%bool) (ct_fks ch)
+                                         && existsb (fun f => negb (has_ctable (sf_table f) c)) (ct_fks ch))%bool) (cat_tables c))%bool
+        then Err (EForeignKey name) else
         Ok (mkCat (filter (fun t => negb (ieq (ct_name t) name)) (cat_tables c))
                   (filter (fun i => negb (ieq (ci_table i) name)) (cat_indexes c)))
       else Err (ENoSuchTable name)
